@@ -542,6 +542,30 @@ def check_exact_recovery(case, ctx):
     assert np.max(np.abs(mdl.A @ v_true + mdl.b - f.reshape(-1))) < 1e-9, "reference forward model inconsistent"
     tol = mdl.tol_v(f)
     est = _estimator()
+    # ONE estimator object serves several tomographies in a row (as in a loop over tester sets): a sibling tomography of
+    # the same shape built and dropped inside a helper, then a freshly built copy of this case's tomography; whatever the
+    # estimator keeps between calls, each answer belongs to the tomography given in that call
+    true_obj0 = build.make(c_sys, TRUE_TYPE[tomo], x_true, m=true.get("m"))
+
+    def _serve_sibling():
+        qo, _ = build_qt(case, mdl, reverse=True, c_sys=c_sys)
+        est.calc_estimate(qo, [(100, np.asarray(p, dtype=float)) for p in qo.calc_prob_dists(true_obj0)],
+                          is_computation_time_required=True)
+
+    for rnd in range(2):
+        try:
+            _serve_sibling()
+        except (ValueError, np.linalg.LinAlgError) as e:
+            ctx.label("shared-estimator:sibling-failed:" + type(e).__name__)
+            break
+        qt_again, _ = build_qt(case, mdl, c_sys=c_sys)
+        res_again = est.calc_estimate(qt_again, as_data(f, case["counts"]), is_computation_time_required=True)
+        v_again = _var_of(res_again, ctx, mdl, f"exact_var:{tomo}")
+        if v_again is None:
+            return
+        ctx.close(v_again, v_true, tol, f"exact_var:{tomo}:estimator_shared_with_sibling_tomography", f"round {rnd}")
+        del qt_again, res_again
+        ctx.label("shared-estimator:rounds")
     res = est.calc_estimate(qt, as_data(f, case["counts"]), is_computation_time_required=bool(case.get("timed")))
     v = _var_of(res, ctx, mdl, f"exact_var:{tomo}")
     if v is None:
